@@ -84,7 +84,7 @@ pub trait CompressionStrategy<T>: ValueStrategy<T> {
     /// Deserializes bytes to a vector of values, validating the expected length.
     #[inline]
     fn bytes_to_values(bytes: &[u8], expected_len: usize) -> Result<Vec<T>> {
-        let mut vec = Vec::with_capacity(expected_len);
+        let mut vec = Vec::new();
         Self::bytes_to_values_into(bytes, expected_len, &mut vec)?;
         Ok(vec)
     }
@@ -92,8 +92,17 @@ pub trait CompressionStrategy<T>: ValueStrategy<T> {
     /// Deserializes bytes into an existing buffer, reusing its allocation.
     #[inline]
     fn bytes_to_values_into(bytes: &[u8], expected_len: usize, dst: &mut Vec<T>) -> Result<()> {
-        let expected_bytes = expected_len * size_of::<T>();
         dst.clear();
+        // Validate the claimed count against the input before reserving space for it.
+        let expected_bytes = match expected_len.checked_mul(size_of::<T>()) {
+            Some(n) if n <= bytes.len() => n,
+            _ => {
+                return Err(Error::DecompressionMismatch {
+                    expected_len,
+                    actual_len: bytes.len() / size_of::<T>().max(1),
+                });
+            }
+        };
         dst.reserve(expected_len);
         if Self::IS_NATIVE_LAYOUT {
             if likely(bytes.len() >= expected_bytes) {
